@@ -39,6 +39,9 @@ Tie: translator (T) + correspondence (C).
 * parameters (round 3): values read back through get_value(name[, section]) (compared with `Params.resolve`), the printed form, a BIOGEME
   object built on the dumped file (its parameter set and attributes, old names included), user-added parameters that share the name of an
   existing one in another section (ambiguity of the bare name; known finding FC14-6).
+* histories of ONE Parameters object (follow-up of round 3): read_file of incomplete / empty / partly unknown files and of a missing file,
+  set_value, add_parameter, dump_file in any order: per operation the outcome, per dump the file (parsed by tomllib) compared with
+  `Params.stepP` / `Params.dumpDoc`; oracle: every dumped file read into a fresh object gives every parameter its CURRENT value.
 """
 
 from __future__ import annotations
@@ -70,7 +73,10 @@ MANIFEST = dict(
     'files_of_type lists exactly name.ext and name~*.ext (files_of_type_exact), every saved output of the model (files_of_type_lists_own) and no output of another model unless one name is the '
     'other followed by ~... (files_of_type_ignores_other_models, files_of_type_tilde_overlap). Parameter file: decode(encode v) = v for every value of the declared kind (param_roundtrip, bool coded "True"/"False", '
     'bool_spellings), lifted to every admitted value of every entry of the GENERATED default table (table_roundtrip + Generated.defaultParams_ok by decide); '
-    'dump-then-read returns exactly the dumped set for all keys (file_roundtrip, keys_preserved, unknown_entry_ignored; Generated.default_file_roundtrip). '
+    'dump-then-read returns exactly the dumped set for all keys (file_roundtrip, keys_preserved, unknown_entry_ignored; Generated.default_file_roundtrip); '
+    'the Parameters object as state (values + the document it holds) under any history of read_file / set_value / add_parameter / dump_file: every operation keeps the keys distinct and the '
+    'values admitted (Proofs/ParamsHistory.lean), the file dumped at any moment is regenerated from the current values and reads back with the current value of every parameter, a second dump '
+    'writes the same file (history_dump_roundtrip, history_value_in_dump; domain: no read_file raising half-way, no value of another kind stored). '
     'Reports list every parameter (reports_list_every_parameter; F12 label = first ten characters: f12_label_short / f12_label_collision); statistics after '
     'loading = statistics before saving given pickle identity (pickle_rederive). Round 3 — the results object as a set of attributes (Model/ResultsObj.lean: '
     'RawResults.__init__, _calculate_stats with its guards, writers, write_pickle, bioResults(pickle_file=), and what each of twelve reports reads): _calculate_stats is '
@@ -112,6 +118,8 @@ RULE = (
     'results cases: generated RawResults (1-5 parameters, adversarial names, singular/non-finite Hessians, bootstrap) and real estimations, pickled and reloaded, '
     'all reports parsed; kinds of results: every combination of hessian / gradient / initial / null log likelihood / bootstrap present or None (32 per run, then random ones with '
     'BHHH missing, 1-5 parameters, report files written before saving) and quick estimations (alone, after an estimation with bootstrap), non-trivial = no hessian or bootstrap or >= 2 parameters; '
+    'parameter histories: 3-10 operations on one object (read of an empty / incomplete / partly unknown / invalid file, read of a missing file, set_value with or without section, '
+    'add_parameter, dump), always ending with a dump (non-trivial = at least one read and one set_value); '
     'parameter cases with 1-2 user-added parameters sharing a name with a default one (20 %), a BIOGEME object built on the dumped file (30 %); histories: 1-120 outputs of 1-3 models and a database with pre-existing decoy files, deletions, backups (non-trivial = some produced name carries a ~NN suffix '
     'or two or more backups were made); backup histories: 2-14 backups / removals of single backups / re-creations of one file in a directory where the backup numbers in use '
     'are arbitrary (gaps, look-alike names); recycling: 0-101 saved results of a model interleaved with saved results of 0-3 other models whose names contain the name of the '
@@ -781,6 +789,154 @@ def check_param_case(ctx, res, case, table):
 
 def _diff(a, b):
     return {k: [a.get(k), b.get(k)] for k in sorted(set(a) | set(b)) if a.get(k) != b.get(k)}
+
+
+# ---- histories of one Parameters object
+
+
+def gen_param_history(rng, algos, entries):
+    """one Parameters object through read_file (incomplete / empty / partly unknown files, a missing file), set_value, add_parameter and
+    dump_file in any order; the last operation is a dump"""
+    secs = sorted({e['sec'] for e in entries})
+    ops, added = [], []
+    for _ in range(rng.randint(2, 9)):
+        r = rng.random()
+        known = entries + added
+        if r < 0.3:
+            d = rng.random()
+            if d < 0.2:
+                doc = []                                    # an empty biogeme.toml
+            elif d < 0.3:
+                doc = [{'sec': 'UnknownSection', 'entries': [{'name': 'seed', 'value': {'i': 12}}]}]
+            else:
+                doc = gen_file_case(rng, algos, entries)['doc'] if rng.random() < 0.8 else gen_file_case(rng, algos, entries)['doc'][:1]
+                if rng.random() < 0.8:
+                    # a file a user could have written: every value valid
+                    for sct in doc:
+                        for en in sct['entries']:
+                            e = next((t for t in entries if t['sec'] == sct['sec'] and t['name'] == en['name']), None)
+                            if e is not None:
+                                en['value'] = {'s': rng.choice(BOOL_SPELLINGS)} if e['type'] == 'bool' else gen_admissible(rng, e, algos)
+                                if 's' in en['value'] and any(ord(c) < 32 for c in en['value']['s']):
+                                    en['value'] = {'s': 'plain'}
+            ops.append({'op': 'read', 'doc': doc})
+        elif r < 0.38:
+            ops.append({'op': 'read_missing'})
+        elif r < 0.72:
+            e = rng.choice(known)
+            q = rng.random()
+            v = gen_admissible(rng, e, algos) if q < 0.85 else gen_value(rng, e['type'], algos, 'typed' if q < 0.95 else 'cross')
+            ops.append({'op': 'set', 'sec': e['sec'] if rng.random() < 0.6 else None, 'name': e['name'], 'value': v})
+        elif r < 0.8:
+            # (a second parameter called optimization_algorithm: known finding FC14-6, exercised by the other stream)
+            src = rng.choice([e for e in entries if e['name'] != 'optimization_algorithm'])
+            sec = rng.choice([x for x in secs if x != src['sec']] + ['UserSection', 'A'])
+            if not any(t['sec'] == sec and t['name'] == src['name'] for t in known):
+                added.append({**src, 'sec': sec})
+                ops.append({'op': 'add', 'name': src['name'], 'from': src['sec'], 'sec': sec})
+        else:
+            ops.append({'op': 'dump'})
+    ops.append({'op': 'dump'})
+    return {'kind': 'param_history', 'ops': ops}
+
+
+def run_param_history(case, entries):
+    """real code; returns per operation the outcome, per dump the parsed file and what a fresh object reads from it"""
+    import biogeme.default_parameters as dp
+    from biogeme.parameters import Parameters
+
+    out = {'steps': [], 'dumps': [], 'model_ops': []}
+    adds = []
+    with core.scratch(None):
+        P = Parameters()
+        for i, op in enumerate(case['ops']):
+            k = op['op']
+            if k == 'read':
+                Path(f'in{i}.toml').write_text(text_of_doc(op['doc']), encoding='utf-8')
+                if canon_doc(doc_of_text(text_of_doc(op['doc']))) != canon_doc(op['doc']):
+                    out['skipped'] = 'harness TOML writer and tomllib disagree'
+                    break
+                o = outcome_of(lambda: P.read_file(f'in{i}.toml'))
+                out['model_ops'].append({'op': 'read', 'doc': op['doc']})
+            elif k == 'set':
+                o = outcome_of(lambda: P.set_value(op['name'], val2py(op['value']), section=op['sec']))
+                out['model_ops'].append(op)
+            elif k == 'add':
+                src = next(p for p in dp.all_parameters_tuple() if p.name == op['name'] and p.section == op['from'])
+                o = outcome_of(lambda: P.add_parameter(src._replace(section=op['sec'])))
+                adds.append(op)
+                e = next(t for t in entries if t['name'] == op['name'] and t['sec'] == op['from'])
+                out['model_ops'].append({'op': 'add', 'entry': [{**e, 'sec': op['sec']}]})
+            else:
+                fname = f'out{i}.toml'
+                o = outcome_of(lambda: P.dump_file(fname)) if k == 'dump' else outcome_of(lambda: P.read_file(fname))   # read_file of a missing file dumps
+                out['model_ops'].append({'op': 'dump'})
+                rec = {'step': i, 'state': state_of(P), 'written': os.path.isfile(fname)}
+                if rec['written']:
+                    try:
+                        rec['doc'] = doc_of_text(Path(fname).read_text(encoding='utf-8'))
+                    except Exception as ex:  # noqa: BLE001
+                        rec['doc_error'] = f'{type(ex).__name__}: {ex}'
+                    Q = Parameters()
+                    for a in adds:
+                        src = next(p for p in dp.all_parameters_tuple() if p.name == a['name'] and p.section == a['from'])
+                        outcome_of(lambda: Q.add_parameter(src._replace(section=a['sec'])))
+                    rec['read'] = outcome_of(lambda: Q.read_file(fname))
+                    rec['after'] = state_of(Q)
+                out['dumps'].append(rec)
+            out['steps'].append(o)
+            if k == 'read' and o != 'ok':
+                break   # read_file raised half-way: the entries before the bad one are imported, the rest is not (outside the statement)
+    return out
+
+
+W_PHIST = 'Parameters: dump_file after a history of read_file / set_value / add_parameter'
+
+
+def check_param_history(ctx, res, case, table):
+    algos, entries = table
+    real = run_param_history(case, entries)
+    if 'skipped' in real:
+        res.notes.append('parameter history: ' + real['skipped'])
+        return
+    kinds = [op['op'] for op in case['ops']]
+    res.count(case, nontrivial='read' in kinds and 'set' in kinds)
+    for k in kinds:
+        res.tally('param history op:' + k)
+    types = {}
+    for e in entries:
+        types[(e['sec'], e['name'])] = e['type']
+    for op in case['ops']:
+        if op['op'] == 'add':
+            types[(op['sec'], op['name'])] = types[(op['from'], op['name'])]
+    # ---- oracle, from the property: what is dumped now reads back with the current value of every parameter
+    for rec in real['dumps']:
+        if not rec['written'] or 'doc_error' in rec:
+            res.violate(f'history step {rec["step"]}: the parameter set cannot be dumped / the file is not valid TOML', case, rec.get('doc_error'), 'a TOML file', where=W_PHIST)
+            break
+        if all(declared_kind_ok(types[tuple(k.split('/', 1))], v) for k, v in rec['state'].items()):
+            bad = _diff(rec.get('after', {}), rec['state'])
+            if rec.get('read') != 'ok' or bad:
+                res.violate(f'history step {rec["step"]}: the dumped file does not read back with the current values: {sorted(bad)[:4]}', case, [rec.get('read'), bad], 'every parameter with its current value',
+                            where=W_PHIST)
+                break
+    # ---- model
+    def cb(ans):
+        n = len(ans.get('steps', []))
+        if ans.get('steps') != real['steps'][:n] or (not ans.get('stopped') and n != len(real['steps'])):
+            res.diverge('outcomes of the operations of a Parameters history vs Params.stepP', case, ans.get('steps'), real['steps'])
+            return
+        mdocs = ans.get('docs', [])
+        for rec, md in zip(real['dumps'], mdocs):
+            if 'doc' in rec and canon_doc(md) != canon_doc(rec['doc']):
+                res.diverge(f'file dumped at step {rec["step"]} of a Parameters history vs Params.dumpDoc', case, _diff(dict(map(lambda x: (x[0], x[1]), canon_doc(md))), dict(map(lambda x: (x[0], x[1]), canon_doc(rec['doc'])))), '')
+                return
+        if not ans.get('stopped') and real['dumps'] and real['steps'] and len(real['steps']) == len(case['ops']):
+            mstate = {f'{e["sec"]}/{e["name"]}': e['value'] for e in ans.get('state', [])}
+            if mstate != real['dumps'][-1]['state']:
+                res.diverge('values at the end of a Parameters history', case, _diff(mstate, real['dumps'][-1]['state']), '')
+
+    ctx.batch.add({'op': 'param_history', 'algos': algos, 'defaults': entries, 'ops': real['model_ops']}, cb)
 
 
 # ---- hand-written files
@@ -2085,6 +2241,10 @@ CORPUS = [
     {'kind': 'params', 'assigns': [{'sec': None, 'name': 'seed', 'value': {'i': 7}}, {'sec': 'UserSection', 'name': 'seed', 'value': {'i': 8}}, {'sec': 'MonteCarlo', 'name': 'seed', 'value': {'i': 9}}],
      'extra': [{'name': 'seed', 'from': 'MonteCarlo', 'sec': 'UserSection'}]},
     {'kind': 'params', 'assigns': [], 'extra': [{'name': 'optimization_algorithm', 'from': 'Estimation', 'sec': 'UserSection'}]},
+    # one Parameters object: an empty file is read, a parameter absent from it is changed, a user parameter is added after a first dump
+    {'kind': 'param_history', 'ops': [{'op': 'read', 'doc': []}, {'op': 'set', 'sec': None, 'name': 'seed', 'value': {'i': 7}}, {'op': 'dump'},
+                                      {'op': 'add', 'name': 'seed', 'from': 'MonteCarlo', 'sec': 'UserSection'}, {'op': 'set', 'sec': 'UserSection', 'name': 'seed', 'value': {'i': 9}},
+                                      {'op': 'read_missing'}, {'op': 'set', 'sec': 'Output', 'name': 'generate_html', 'value': {'b': False}}, {'op': 'dump'}]},
     # known findings
     {'kind': 'results_latex', 'value': 200000.0},
     {'kind': 'flat', 'n': 2},
@@ -2130,6 +2290,8 @@ def _run_case(ctx, res, case, table):
         check_param_case(ctx, res, case, table)
     elif k == 'file':
         check_file_case(ctx, res, case, table)
+    elif k == 'param_history':
+        check_param_history(ctx, res, case, table)
     elif k == 'results':
         results_case_stub(ctx, res, case)
     elif k == 'results_latex':
@@ -2207,6 +2369,8 @@ def check(ctx) -> Result:
         run_case(ctx, res, gen_param_case(rng, *table), table)
     for _ in range(ctx.n(120, 2000)):
         run_case(ctx, res, gen_file_case(rng, *table), table)
+    for _ in range(ctx.n(150, 2000)):
+        run_case(ctx, res, gen_param_history(rng, *table), table)
     for i in range(ctx.n(100, 1200)):
         run_case(ctx, res, gen_results_spec(rng, rng.choice(['r', 'res ults', 'r~00', 'β'])), table)
     # every kind of results object the constructor admits (2^6 combinations of optional inputs, 1-5 parameters)
@@ -2253,7 +2417,7 @@ def search(ctx, res, broken):
     (no Lean needed: the callbacks of the model are dropped)"""
     rng = core.rng_for('C14-search', ctx.seed)
     table = live_table()
-    gens = [lambda: gen_param_case(rng, *table), lambda: gen_file_case(rng, *table), lambda: gen_results_spec(rng, 's'),
+    gens = [lambda: gen_param_case(rng, *table) if rng.random() < 0.5 else gen_param_history(rng, *table), lambda: gen_file_case(rng, *table), lambda: gen_results_spec(rng, 's'),
             lambda: gen_history(rng), lambda: gen_recycle(rng, rng.choice([1, 2, 12, 101])),
             lambda: gen_history(rng, long=True), lambda: gen_backup_history(rng), lambda: gen_recycle(rng), lambda: gen_kind_spec(rng, 's k')]
     weights = [40, 20, 25, 25, 3, 2, 20, 10, 30]
